@@ -12,16 +12,17 @@ PROP = 'C15'
 MANIFEST = dict(
         technique='Coq proof (induction over chunk lists / line streams) about a hand model of the line buffer and T2-translated '
                   'processors; extracted-model vs. implementation correspondence',
-        text='Theorems in coq/theories/Properties/C15.v: chunk independence for every pipeline state machine and every chunking that '
-             'does not separate CR from LF (full statement refuted by witness: known finding F-CRLF-SPLIT), identity for no-op '
-             'pipelines under every chunking, exact trimming of the translated TrimTrailingWhitespace (regex semantics in Coq), '
+        text='Theorems in coq/theories/Properties/C15.v: chunk independence for every pipeline state machine and EVERY chunking '
+             '(write_rj = the buffering loop behind _rejoin_split_crlf, the code since fix 982f275; the loop alone is proved '
+             'independent only without CR|LF seams and refuted otherwise: repaired finding F-CRLF-SPLIT), identity for no-op '
+             'pipelines under every chunking, _copy_header_using_line_pps = line-by-line application to the file text, exact trimming of the translated TrimTrailingWhitespace (regex semantics in Coq), '
              'bound/keeps-non-empty/subsequence for the translated LimitEmptyLines for every N>=0. Tie: processors and both regular '
              'expressions are re-translated from /repo on every run (proofs re-checked), the buffering loop is tied by a shape pin on its '
              'normalised AST plus running the extracted model and CodeGenerator._generate_with_line_buffer on the same chunk sequences '
              '(incl. lines of 4 KiB..70 KiB against the property oracle).',
         note='Trusted: Coq kernel; T2 translator (Python ast -> Gallina) and regex parser; table of Python whitespace code points; '
              'extraction (ExtrOcamlBasic only) + OCaml driver; the hand model of the buffering loop is validated, not verified. '
-             'Not covered: _copy_header_using_line_pps (support files copied verbatim) is modelled but not part of the theorems.',
+             'Python text-mode newline translation when a support file is copied is assumed (py_lines), not modelled.',
         design='§5 C15')
 
 ALPHABET = ['a', 'b', 'Z', ' ', ' ', '\t', '\n', '\n', '\n', '\r\n', '\r\n', '\r', '\f', '\v', ' ', ' ', '　',
@@ -225,7 +226,7 @@ def shrink(case: dict, failing) -> dict:
 
 def impl_violates(case: dict) -> bool:
     r = run_impl([case])[0]
-    return r.get('ok') != oracle(case['chunks'], case['pps']) and not has_split_crlf(case['chunks'])
+    return r.get('ok') != oracle(case['chunks'], case['pps'])
 
 
 def main(chk: core.Check, replay: typing.Optional[str] = None) -> int:
@@ -253,6 +254,19 @@ def main(chk: core.Check, replay: typing.Optional[str] = None) -> int:
     long_cases = gen_long_cases(chk.rng, 60 if chk.tier == 'quick' else 600) if not replay else []
     long_impl = run_impl(long_cases) if long_cases else []
     long_bad = [i for i, c in enumerate(long_cases) if long_impl[i].get('ok') != oracle(c['chunks'], c['pps'])]
+    # _copy_header_using_line_pps: a real file read in text mode (universal newlines: CRLF and lone CR arrive as LF; the
+    # target is written in text mode too) -> oracle = line-by-line application to the newline-translated text
+    copy_cases = []
+    if not replay:
+        for _ in range(150 if chk.tier == 'quick' else 3000):
+            copy_cases.append({'copy_text': gen_text(chk.rng, chk.rng.choice([0, 1, 2, 3, 5, 8, 13, 21, 40])), 'pps': chk.rng.choice(PIPELINES)})
+        copy_cases += [{'copy_text': t, 'pps': p} for t in ['a\nbc', 'bc', 'a \r\nb  ', '\n\n\nx', 'x\r', '\r'] for p in ([['trim']], [['limit', 1]])]
+    copy_impl = run_impl(copy_cases) if copy_cases else []
+
+    def copy_oracle(c):
+        t = c['copy_text'].replace('\r\n', '\n').replace('\r', '\n')
+        return oracle([t], c['pps'])
+    copy_bad = [i for i, c in enumerate(copy_cases) if copy_impl[i].get('ok') != copy_oracle(c)]
     ok_model, exe, log = core.build_extracted('c15', 'ExtractC15.v', 'c15_driver.ml')
     model = run_model(exe, cases) if ok_model else None
     if not ok_model:
@@ -291,12 +305,10 @@ def main(chk: core.Check, replay: typing.Optional[str] = None) -> int:
             else:
                 bad_oracle.append((i, exp, got))
         if model is not None:
-            if split and not kf_live:
-                continue  # finding repaired: the quirk-faithful model no longer applies on these inputs
             stats['model_vs_impl_compared'] += 1
             if model[i][0] != got:
                 bad_model.append((i, model[i][0], got))
-            if not split and model[i][0] != model[i][1]:
+            if model[i][0] != model[i][1]:
                 bad_model.append((i, 'model write != model linewise', got))
     stats['nontrivial'] = len(distinct)
 
@@ -312,15 +324,21 @@ def main(chk: core.Check, replay: typing.Optional[str] = None) -> int:
     })
 
     chk.coverage['distribution']['long_line_cases'] = len(long_cases)
-    chk.coverage['evaluations'] += len(long_cases)
-    if long_bad and not bad_oracle:
+    chk.coverage['distribution']['copy_header_cases'] = len(copy_cases)
+    chk.coverage['evaluations'] += len(long_cases) + len(copy_cases)
+    if copy_bad and not bad_oracle and not long_bad:
+        c = copy_cases[copy_bad[0]]
+        chk.violation({'case': c, 'expected_by_property': copy_oracle(c), 'implementation': copy_impl[copy_bad[0]],
+                       'what': '_copy_header_using_line_pps output differs from line-by-line application to the file text',
+                       'broken': broken, 'n_failing': len(copy_bad)}, found_input=True)
+    elif long_bad and not bad_oracle:
         c = long_cases[long_bad[0]]
         chk.violation({'case': c, 'expected_by_property': oracle(c['chunks'], c['pps']), 'implementation': long_impl[long_bad[0]],
                        'what': 'implementation output differs from line-by-line application on a long line (line lengths around buffer sizes)',
                        'broken': broken, 'n_failing': len(long_bad)}, found_input=True)
     elif bad_oracle:
         i, exp, got = bad_oracle[0]
-        small = shrink(cases[i], impl_violates) if not has_split_crlf(cases[i]['chunks']) else cases[i]
+        small = shrink(cases[i], impl_violates)
         chk.violation({'case': small, 'original_case': cases[i], 'expected_by_property': oracle(small['chunks'], small['pps']),
                        'implementation': run_impl([small])[0], 'what': 'implementation output differs from line-by-line application',
                        'broken': broken, 'n_failing': len(bad_oracle)}, found_input=True)
